@@ -21,6 +21,7 @@ Static clauses decided (necessary conditions of C31):
  CYCLE   related objects are not inside the *arguments* of the reduce value (pickle writes those before it memoises the object,
          so objects that refer to each other would recurse until RecursionError): they travel in the state element, or as keys.
  FIRSTCOL a raw primary key is reduced to its first column only under a guard on the number of key columns (not of key attributes).
+ GIVEN   every object put into the bag is processed in full whatever was visited before; a related-object visit never replaces an entry.
  MIX     a Bag refuses objects of another database or another session.
 """
 NOT_DECIDED = "value equality after unpickling; JSON encoding of every attribute type"
@@ -188,6 +189,39 @@ def run(ctx):
                    '' if not reachable else '`%s` can be taken for a key with several columns (the guard does not test the number of key columns / the length of the raw key): '
                    'objects whose keys share the first column are reported under one key and overwrite each other' % norm(sb), node=sb)
     ctx.floor('C31-FIRSTCOL', nfc, 5, 'first-column reductions of a raw primary key')
+    # ---------------------------------------------------------------- GIVEN
+    # "report ... the objects given": every object put into the bag is processed in full (with its collections) whatever was visited before it, and a
+    # visit of a *related* object (attribute values only) never replaces an entry that exists.  The scratch table is a table of tables,
+    # bag.dicts[<entity>][<object>]: a membership test on bag.dicts itself asks for an entity, not for the object, and is vacuous.
+    td = repo.fn(SER, 'Bag.to_dict'); gt = cg.cfg(td)
+    loops_g = [x for x in gt.nodes if x.kind == 'iter' and any(isinstance(a_, ast.Attribute) and a_.attr == 'objects' for a_ in ast.walk(x.ast.iter))]
+    ctx.need(loops_g, 'C31-GIVEN: the loop over bag.objects in Bag.to_dict was not found')
+    inner_g = [x for x in gt.nodes if x.kind == 'iter' and x not in loops_g and any(x.ast in ast.walk(L.ast) for L in loops_g)]
+    full = nodes_calling(gt, lambda c: isinstance(c.func, ast.Attribute) and c.func.attr == '_process_object' and len(c.args) == 1 and not c.keywords)
+    for L in inner_g or loops_g:
+        starts = [y for y, lab in gt.succ[L.id] if lab == 'loop']
+        r_ = gt.reach(starts, avoid=full, edge_ok=lambda x, y, lab: lab != 'exc')
+        ok = bool(full) and L.id not in r_
+        ctx.ob('C31-GIVEN.every-object-given-is-processed-in-full', td, L.ast, ok,
+               '' if ok else 'an iteration over the objects given can end without bag._process_object(obj): an object that was entered before as a related object of another one '
+               '(attribute values only) is reported without its collections -- to_dict([student, group]) and to_dict([group, student]) differ', node=L.ast)
+    po = repo.fn(SER, 'Bag._process_object'); gp_ = cg.cfg(po)
+    partial = [(x, c) for x in gp_.nodes if x.ast is not None for c in x.calls() if isinstance(c.func, ast.Attribute) and c.func.attr == '_process_object'
+               and any(k.arg == 'process_related' and isinstance(k.value, ast.Constant) and k.value.value is False for k in c.keywords)]
+    ctx.need(partial, 'C31-GIVEN: the visits of related objects in Bag._process_object were not found')
+    for x, c in partial:
+        arg = norm(c.args[0]) if c.args else '?'
+        def absent(text, node, arg=arg):
+            if isinstance(node, ast.Compare) and len(node.ops) == 1 and isinstance(node.ops[0], (ast.In, ast.NotIn)) and norm(node.left) == arg:
+                cont = resolve_local(po.node, node.comparators[0])       # `seen = bag.dicts[cls]; if obj not in seen`
+                per_entity = isinstance(cont, ast.Subscript) and (dotted(cont.value) or '').endswith('.dicts')
+                if per_entity: return isinstance(node.ops[0], ast.In)          # scenario: the object has an entry already
+            return None
+        live_ = gp_.reach([gp_.entry], edge_ok=scenario_edges(gp_, po.node, absent, resolve=True))
+        ok = x.id not in live_
+        ctx.ob('C31-GIVEN.related-visit-never-replaces-an-entry', po, c, ok,
+               '' if ok else 'with `%s` already in the scratch table the partial visit `%s` is still reachable (no membership test on bag.dicts[<its entity>]): it replaces the full entry of '
+               'an object that was given by one without collections' % (arg, norm(c)[:60]), node=x.ast).key += '::' + arg
     # ---------------------------------------------------------------- MIX
     pu = repo.fn(SER, 'Bag._put_object'); g = cg.cfg(pu)
     for want in ('bag.database.entities.get(entity.__name__) is not entity', 'obj._session_cache_ is not cache'):
@@ -262,6 +296,10 @@ MUTANTS = [
     dict(id='C31-m2', file='pony/orm/serialization.py', fn='Bag._reduce_composite_pk', old=".replace('*', '**').replace(',', '*,')", new=".replace(',', '*,')", expect='C31-ESC'),
     dict(id='C31-m3', file='pony/orm/serialization.py', fn='Bag.to_dict', old='    def to_dict(bag):\n        bag.dicts.clear()\n', new='    def to_dict(bag):\n', expect='C31-FRESH.scratch-table-cleared-before'),
     dict(id='C31-m4', file='pony/orm/core.py', fn='Entity.to_dict', old='        if cache is not None and cache.is_alive and cache.modified: cache.flush()\n', new='', expect='C31-FLUSH'),
+    dict(id='C31-giv1', file='pony/orm/serialization.py', fn='Bag.to_dict', old="                bag._process_object(obj)  # in full, also when it was entered as a related object of another one before", new="                if obj not in bag.dicts[entity]: bag._process_object(obj)", expect='C31-GIVEN.every-object'),
+    dict(id='C31-giv2', file='pony/orm/serialization.py', fn='Bag._process_object', old="                        if related_obj not in bag.dicts[related_obj.__class__]:", new="                        if related_obj not in bag.dicts:", expect='C31-GIVEN.related-visit'),
+    dict(id='C31-giv3', file='pony/orm/serialization.py', fn='Bag._process_object', old="                    if process_related_objects and value not in bag.dicts[value.__class__]:", new="                    if process_related_objects:", expect='C31-GIVEN.related-visit'),
+    dict(id='C31-giv4', file='pony/orm/serialization.py', fn='Bag._process_object', old="                        if related_obj not in bag.dicts[related_obj.__class__]:", new="                        seen = bag.dicts[related_obj.__class__]\n                        if related_obj not in seen:", benign=True),
     dict(id='C31-fc4', file='pony/orm/serialization.py', fn='Bag._process_object', old="                if len(attr.reverse.entity._pk_columns_) > 1:", new="                if attr.reverse.entity._pk_is_composite_:", expect='C31-FIRSTCOL'),
     dict(id='C31-fc1', file='pony/orm/serialization.py', fn='Bag.to_dict', old="            composite_pk = len(entity._pk_columns_) > 1", new="            composite_pk = entity._pk_is_composite_", expect='C31-FIRSTCOL'),
     dict(id='C31-fc2', file='pony/orm/serialization.py', fn='Bag.to_dict', old="            composite_pk = len(entity._pk_columns_) > 1", new="            composite_pk = len(entity._pk_columns_) != 1", benign=True),
